@@ -1,6 +1,10 @@
 pub mod common;
 pub mod driver;
+pub mod alu;
 pub mod c01;
+pub mod c02;
+pub mod c03;
+pub mod c04;
 
 use crate::engine::run::Ctx;
 
@@ -9,6 +13,9 @@ pub const ALL: [&str; 1] = ["C01"];
 pub fn dispatch(id: &str, ctx: &Ctx) -> Option<i32> {
     Some(match id {
         "C01" => c01::run(ctx),
+        "C02" => c02::run(ctx),
+        "C03" => c03::run(ctx),
+        "C04" => c04::run(ctx),
         _ => return None,
     })
 }
